@@ -65,7 +65,7 @@ def _worker(job):
         if seeds is None:
             # profile the first few paths to record which artap functions are entered
             prof = _collect_functions(funcs)
-            eng_probe = core.Engine(config_name=cfg['name'], **dict(eopts, validate=0))
+            eng_probe = core.Engine(config_name=cfg['name'], **dict(eopts, validate=0, dry=True))
             sys.setprofile(prof)
             try:
                 eng_probe.explore(body, stop_after=_PROFILE_PATHS)
@@ -401,7 +401,12 @@ def replay_file(path):
     finally:
         shutil.rmtree(scratch, ignore_errors=True)
     print('replay %s config=%s check=%s' % (rec['property'], rec['config'], rec['check']))
-    print('  inputs: %s' % json.dumps(rec['assignment'])[:2000])
+    def _f(v):
+        if isinstance(v, (list, tuple)):
+            from fractions import Fraction
+            return float(Fraction(int(v[0]), int(v[1])))
+        return v
+    print('  inputs: %s' % json.dumps({k: _f(v) for k, v in rec['assignment'].items()})[:3000])
     print('  outputs: %s' % [(n, _plain(v)) for n, v in cc.outputs][:40])
     print('  violated checks: %s exception: %r' % (viol, exc))
     if rec['check'].startswith('uncaught-exception:'):
